@@ -1,7 +1,7 @@
 (* RunC09: probes of one policy under the four checkers; Policy.from_json on parsed properties. *)
 From Coq Require Import ZArith NArith List Bool String.
 From Vakt Require Import Base.PyMonad Base.PyVal Base.Show Model.Regex Model.Rules Model.Policy Model.Checkers
-     Model.Guard Harness.ShowModel Harness.RunGuard.
+     Model.Guard Model.RuleJson Harness.ShowModel Harness.RunGuard.
 Import ListNotations.
 Open Scope string_scope.
 
@@ -25,4 +25,37 @@ Definition run_doc (props : list (pstr * aval)) : string :=
   match from_props props with
   | Ok s => "ok " ++ show_pstate s
   | Raise e => show_exn e
+  end.
+
+(* ---- the stored structure of a rule (Model.RuleJson) ---- *)
+Fixpoint show_rule_full (r : rule) : string :=
+  let vals d := "[" ++ join "," (map show_val d) ++ "]" in
+  let members := (fix go (l : list rule) : list string :=
+                    match l with [] => [] | x :: t => show_rule_full x :: go t end) in
+  match r with
+  | REq a | RNotEq a | RGreater a | RLess a | RGreaterOrEqual a | RLessOrEqual a =>
+      rule_name r ++ "(val=" ++ show_val a ++ ")"
+  | RIn d | RNotIn d | RAllIn d | RAllNotIn d | RAnyIn d | RAnyNotIn d => rule_name r ++ "(data=" ++ vals d ++ ")"
+  | RAnd rs | ROr rs => rule_name r ++ "(rules=" ++ join ";" (members rs) ++ ")"
+  | RNot x => "Not(rule=" ++ show_rule_full x ++ ")"
+  | REqual s ci | RStartsWith s ci | REndsWith s ci | RContains s ci =>
+      rule_name r ++ "(ci=" ++ show_bool ci ++ ";val=" ++ show_pstr s ++ ")"
+  | RCIDR c => "CIDR(cidr=" ++ show_val c ++ ")"
+  | RMatch _ a => rule_name r ++ "(attribute=" ++ match a with Some s => show_pstr s | None => "N" end ++ ")"
+  | _ => rule_name r ++ "()"
+  end.
+
+Inductive ccase : Type :=
+| CEnc (r : rule)                (* encode, then decode what was encoded *)
+| CDec (fuel : nat) (v : val).   (* decode a given structure *)
+
+Definition run_codec (c : ccase) : string :=
+  match c with
+  | CEnc r =>
+      match rule_val r with
+      | None => "UNMODELLED"
+      | Some v => show_val v ++ " => " ++
+                  match rule_of_val (rdepth r) v with Some r' => show_rule_full r' | None => "NONE" end
+      end
+  | CDec f v => match rule_of_val f v with Some r => show_rule_full r | None => "UNMODELLED" end
   end.
